@@ -1,10 +1,5 @@
-mod engine;
-mod flow;
-mod gen;
-mod hz;
-mod props;
-
-use engine::Tier;
+use dsverif::engine::{self, Tier};
+use dsverif::{hz, props};
 
 fn usage() -> ! {
     eprintln!("usage: dsverif check <Cxx> [--tier quick|thorough] [--section name]\n       dsverif replay <file>\n       dsverif list");
